@@ -134,7 +134,7 @@ class PhaseSpaceFactorAbs(sp.Expr):
     def evaluate(self) -> sp.Expr:
         s, m1, m2 = self.args
         q_squared = BreakupMomentumSquared(s, m1, m2)
-        return 2 * sp.sqrt(sp.Abs(q_squared)) / sp.sqrt(s)
+        return 2 * sp.sqrt(sp.Abs(q_squared)) / sp.sqrt(sp.Abs(s))
 
     def _latex_repr_(self, printer: LatexPrinter, *args) -> str:
         s_symbol = self.args[0]
